@@ -314,6 +314,10 @@ func (s *evmSim) park(kind, key string) error {
 		// stall far beyond every caller's deadline
 		time.Sleep(40 * time.Second)
 		return errInjected
+	case 3:
+		// slow, but answered: the caller (Run, subscribing at start-up without a deadline) is held up
+		// for a dozen poll intervals while the poller it has just created is already at work
+		time.Sleep(12 * time.Duration(s.prog.C("poll_ms", 1000)) * time.Millisecond)
 	}
 	return nil
 }
@@ -576,7 +580,10 @@ func (s *evmSim) release(p *evmParked) {
 		code = 0
 	} else if c, hit := s.faultFor(p.kind, p.key); hit {
 		code = c
-		s.stats.Fault([]string{"rpc-error:", "rpc-stall:", "rpc-error-header-not-found:"}[code] + p.kind)
+		if code == 3 && p.kind != "subscribe" {
+			code = 0
+		}
+		s.stats.Fault([]string{"rpc-error:", "rpc-stall:", "rpc-error-header-not-found:", "rpc-slow:"}[code] + p.kind)
 		if code == 1 && p.kind == "receipt" && !p.phase {
 			s.stallUntil = s.now() + 6*time.Second // the caller gives up after five
 		}
@@ -998,7 +1005,7 @@ func (s *evmSim) runStep(st simkit.Step, obsvReqC chan *gossipv1.ObservationRequ
 		s.mu.Lock()
 		s.nFaults++
 		poll := time.Duration(s.prog.C("poll_ms", 1000)) * time.Millisecond
-		s.faults = append(s.faults, faultWindow{kind: k, code: int(st.B) % 3, serial: s.nFaults, from: s.now(), until: s.now() + time.Duration(1+st.C%3)*2*poll})
+		s.faults = append(s.faults, faultWindow{kind: k, code: int(st.B) % 4, serial: s.nFaults, from: s.now(), until: s.now() + time.Duration(1+st.C%3)*2*poll})
 		s.mu.Unlock()
 	case "racelog":
 		s.mu.Lock()
@@ -1174,9 +1181,11 @@ func (s *evmSim) notePending() {
 // busy-consumer scenario: there a goroutine of the previous Run lives on next to the new ones, and
 // how their polls interleave at one instant is the Go scheduler's business (it changes no verdict).
 func (s *evmSim) pollsForLog() string {
-	if s.holdUsed || s.inc > 1 {
+	if s.holdUsed || s.inc > 1 || s.nFaults > 0 {
 		// (after a restart the first poll of the new poller and the last one of the old poller fall
-		// on the same instant in an order the Go scheduler picks)
+		// on the same instant in an order the Go scheduler picks; with injected faults the poller's
+		// retries and the header loop's own block queries interleave likewise. The count is a log
+		// detail, no oracle reads it.)
 		return "-"
 	}
 	return strconv.Itoa(s.reqs["blockByNumber"])
@@ -1360,6 +1369,20 @@ func (evmHarness) Gen(seed uint64, prop, tier string) *simkit.Program {
 			add("fault", int64(r.Pick(2, 2, 4, 1, 1)), int64(r.Intn(3)), int64(r.Intn(3)))
 		case 6:
 			if r.P(0.3) {
+				// a message is pending when head polls fail three times in a row: the watcher restarts. The
+				// new Run is slow to subscribe (but succeeds), and meanwhile the polls of its new poller
+				// fail three times in a row as well - with nobody listening to the poller's errors yet
+				add("log", 0, int64(r.Intn(3)), int64(r.Intn(64)))
+				add("adv", p.Cfg["poll_ms"], 0, 0)
+				add("fault", 0, 0, 1) // blockByNumber: error, 4 poll intervals
+				add("adv", 3*p.Cfg["poll_ms"], 0, 0)
+				add("fault", 4, 3, 2) // subscribe: slow
+				add("adv", 3*p.Cfg["poll_ms"], 0, 0)
+				add("fault", 0, 0, 2) // blockByNumber: error, 6 poll intervals
+				add("adv", 14*p.Cfg["poll_ms"], 0, 0)
+				add("head", int64(r.Range(3, 8)), 120, 0)
+				add("adv", 4*p.Cfg["poll_ms"], 0, 0)
+			} else if r.P(0.3) {
 				// a message is pending when head polls start failing: the watcher restarts, and while the
 				// new Run is still held up subscribing, the polls of its new poller fail as well
 				add("log", 0, int64(r.Intn(3)), int64(r.Intn(64)))
